@@ -48,6 +48,14 @@ class History:
         async def go():
             r = await self.world.request(s, method, args)
             self.log(f'reply s{si} {method} {tag}: {str(r)[:80]}')
+            if 'limits' in self.want and method == 'blockchain.block.headers' and r[0] == 'ok':
+                # C17 (headers half), judged on every reply whatever the server was doing meanwhile
+                rep = r[1]
+                nhdr = len(rep['hex']) // 160
+                self.res.bump('headers_replies_judged')
+                if rep['count'] != nhdr or nhdr > rep['max'] or len(rep['hex']) % 160:
+                    self.fails.append(('headers_count', f'block.headers{tuple(args)} reported count {rep["count"]} '
+                                                        f'(max {rep["max"]}) but returned {nhdr} headers'))
             return r
         t = self.world.loop.create_task(go())
         self.pending_client.append((si, method, args, tag, t))
@@ -62,6 +70,12 @@ class History:
         si = rng.randrange(len(self.world.sessions))
         script = rng.choice(SCRIPTS)
         r = rng.random()
+        if 'limits' in self.want and rng.random() < 0.7:
+            tip = self.daemon.tip.height
+            start = max(0, tip + rng.choice([-6, -4, -3, -2, -1, 0, 1]))
+            count = rng.choice([0, 1, 2, 3, 5, 8, 2016, 5000])
+            self.client(si, 'blockchain.block.headers', [start, count] + ([] if rng.random() < 0.7 else [tip]), ('q',))
+            return
         if r < 0.35:
             self.subscribe(si, script)
         elif r < 0.45:
@@ -313,6 +327,21 @@ class History:
                 if rng.random() < 0.7:
                     self.client(si, 'blockchain.headers.subscribe', [], ('hsub',))
             w.advance_time(0.5)
+            if 'limits' in self.want:
+                # headers requests issued the moment a reorganisation starts: validated against the
+                # old height, their disk reads queued behind / between the back-out jobs
+                orig_reorg = w.bp.reorg_chain
+
+                async def reorg_chain(count):
+                    tip = w.bp.state.height
+                    for _ in range(rng.randrange(1, 4)):
+                        si = rng.randrange(len(w.sessions))
+                        self.client(si, 'blockchain.block.headers',
+                                    [max(0, tip - rng.choice([0, 1, 2, 3, 5])), rng.choice([1, 2, 3, 6, 2016])], ('q',))
+                        self.res.bump('headers_requests_at_reorg_start')
+                    await asyncio.sleep(0)
+                    return await orig_reorg(count)
+                w.bp.reorg_chain = reorg_chain
             nphases = rng.randrange(2, 5 if self.tier == 'quick' else 8)
             for phase in range(nphases):
                 for _ in range(rng.randrange(1, 6)):
@@ -470,6 +499,8 @@ def _run(tier, seed, want, name):
                 'every phase against expectations computed from the daemon only; non-trivial = the history contains a '
                 'reorg or a mempool change and at least one judged subscription/query/proof')
     n = {'quick': 80, 'thorough': 800}[tier]
+    if 'limits' in want:
+        n = {'quick': 150, 'thorough': 1500}[tier]
     if 'proofs' in want:
         for variant in (0, 1):
             fails, h = scenario_header_cache_race(res, seed, variant)
@@ -495,7 +526,7 @@ def _run(tier, seed, want, name):
                 res.harness_errors.append(f'history {idx} (seed {seed}): {f[1]}')
         if real:
             res.violations.append({'suite': name, 'clause': real[0][0], 'detail': real[0][1],
-                                   'seed': seed, 'history': idx, 'events': h.events[-60:],
+                                   'seed': seed, 'history': idx, 'want': sorted(want), 'events': h.events[-60:],
                                    'all_failures': [f'{c}: {d}' for c, d in real[:6]]})
             if len(res.violations) >= 3:
                 break
@@ -514,8 +545,12 @@ def run_proofs(tier, seed):
     return _run(tier, seed, {'proofs'}, 'system')
 
 
+def run_limits(tier, seed):
+    return _run(tier, seed, {'limits'}, 'system')
+
+
 def replay(case):
-    want = {'converge', 'queries', 'proofs'}
+    want = set(case['want']) if case.get('want') else {'converge', 'queries', 'proofs'}
     res = SuiteResult('system')
     if case.get('scenario'):
         fails, _h = scenario_header_cache_race(res, case['seed'], case['scenario'][1])
